@@ -239,7 +239,7 @@ def flow_safety_threshold(prog: Program, rep, RID: str):
                 norm(substitute_locals(n.value, fdefs_)) == f"G.edges[{fd.args.args[0].arg}, {fd.args.args[1].arg}]"}
         other_graph = [n for n in ast.walk(fd) if isinstance(n, ast.Attribute) and isinstance(n.value, ast.Name) and n.value.id == "G" and n.attr != "edges"]
         calls_ok = all((dotted(c_.func) in ("Fraction", "fractions.Fraction", "int", "float", "isinstance", "hasattr")) or
-                       (isinstance(c_.func, ast.Attribute) and c_.func.attr == "item" and not c_.args) for c_ in ast.walk(fd) if isinstance(c_, ast.Call))
+                       (isinstance(c_.func, ast.Attribute) and c_.func.attr in ("item", "as_integer_ratio") and not c_.args) for c_ in ast.walk(fd) if isinstance(c_, ast.Call))
         rets_ = [r for r in ast.walk(fd) if isinstance(r, ast.Return) and r.value is not None]
         if len(subs) == 1 and not other_graph and calls_ok and rets_ and not any(isinstance(n, (ast.BinOp, ast.AugAssign)) for n in ast.walk(fd)):
             readers[fd.name] = next(iter(subs))
@@ -484,6 +484,48 @@ def scan_reads_python_numbers(prog: Program, rep, RID: str):
         raise AnalysisError("flow-safe paths: neither raw arithmetic on the bounds nor a reader returning Python numbers was found")
 
 
+def readers_take_every_number(prog: Program, rep, RID: str):
+    """The readers of the excess-flow scan turn non-integers into fractions.  `Fraction(value)` takes int, float, Decimal, Fraction and str only: a real number
+    without a Python counterpart (np.longdouble: `.item()` returns it unchanged) raises TypeError, although it has an exact ratio (`as_integer_ratio()`).
+    A bare `Fraction(<value>)` is accepted only where the value is known to have no as_integer_ratio()."""
+    from rules.semantic import enclosing_tests
+    f = prog.function("flowpaths.utils.safetyflowdecomp", "compute_inexact_flow_decomp_safe_paths")
+    n = 0
+    for fd in [x for x in ast.walk(f.node) if isinstance(x, ast.FunctionDef) and x is not f.node]:
+        fr = [c for c in ast.walk(fd) if isinstance(c, ast.Call) and dotted(c.func) in ("Fraction", "fractions.Fraction")]
+        if not fr:
+            continue
+        par = {}
+        for a in ast.walk(fd):
+            for ch in ast.iter_child_nodes(a):
+                par[id(ch)] = a
+        for c in fr:
+            n += 1
+            key = f"compute_inexact_flow_decomp_safe_paths.{fd.name}:fraction-of-every-real"
+            if len(c.args) != 1 or c.keywords or not isinstance(c.args[0], ast.Name):
+                rep.ok(RID, key, f"`{norm(c)[:70]}`", f.loc(c))
+                continue
+            v = c.args[0].id
+            excl = False
+            cur = c
+            while id(cur) in par:
+                p_ = par[id(cur)]
+                if isinstance(p_, ast.IfExp) and cur is p_.orelse and norm(p_.test) == f"hasattr({v}, 'as_integer_ratio')":
+                    excl = True
+                cur = p_
+            for t, pol in enclosing_tests(fd, c):
+                if norm(t) == f"hasattr({v}, 'as_integer_ratio')" and not pol:
+                    excl = True
+            if excl:
+                rep.ok(RID, key, f"`Fraction({v})` only for values without as_integer_ratio()", f.loc(c))
+            else:
+                rep.violation(RID, key, f"`{norm(c)}` is applied to every non-integer: np.longdouble has no Python counterpart (.item() returns it unchanged) and Fraction() rejects it "
+                              "with TypeError - kFlowDecomp / MinFlowDecomp cannot be constructed on np.longdouble flow values although every other route decomposes them; the exact "
+                              "ratio is available as as_integer_ratio()", f.loc(c))
+    if n == 0:
+        raise AnalysisError("flow-safe paths: no reader turning the bounds into fractions was found")
+
+
 def check(prog: Program, rep):
     rep.rule("C06.R1", "mutate/restore pairing on the shared adjacency dict", floor=2)
     restore_rule(prog, rep, "C06.R1", "flowpaths.utils.safetypathcovers", "find_all_bridges")
@@ -505,6 +547,7 @@ def check(prog: Program, rep):
     from rules.values import no_recursion
     no_recursion(prog, rep, "C06.R7", ["flowpaths.utils.dominators", "flowpaths.utils.safetyflowdecomp", "flowpaths.utils.safetypathcovers", "flowpaths.utils.safetypathcoverscycles"])
     scan_reads_python_numbers(prog, rep, "C06.R7")
+    readers_take_every_number(prog, rep, "C06.R7")
     rep.rule("C06.R8", "the reachability queries the pruning of a slot relies on (nodes_reachable / nodes_reaching and their caches) answer for the graph: cache ownership and purity of the substrate queries (C17.R1, C17.R2)", floor=20)
     from rules import c17 as _c17
     from sa.alias import AliasModel as _AM
